@@ -4,8 +4,8 @@ and on a failed check extracts the concrete witness for native replay."""
 import os, re, subprocess, time, json, signal, hashlib, glob, shlex
 
 VERIF = os.path.dirname(os.path.dirname(os.path.abspath(__file__)))
-HARNESS = os.path.join(VERIF, "harness")
-WORK = os.path.join(VERIF, ".work")
+HARNESS = os.environ.get("VERIF_HARNESS_DIR") or os.path.join(VERIF, "harness")  # (override: experiments on a scratch copy)
+WORK = os.environ.get("VERIF_WORK_DIR") or os.path.join(VERIF, ".work")
 CFG = "--cfg cozy_chess_verif"
 
 # the four table lookups replaced by formula stubs in board-level harnesses
@@ -186,16 +186,23 @@ def parse_log(text, harness_name=None):
 
 
 def parse_playback(text):
-    """Concrete playback prints a unit test with `let concrete_vals: Vec<Vec<u8>> = vec![ vec![..], ..]`."""
-    m = re.search(r"let concrete_vals: Vec<Vec<u8>> = vec!\[(.*?)\];", text, re.S)
-    if not m:
-        return None
-    body = m.group(1)
-    vals = []
-    for vm in re.finditer(r"vec!\[([^\]]*)\]", body):
-        nums = [int(x) for x in re.findall(r"\d+", vm.group(1))]
-        vals.append(nums)
-    return vals
+    """Concrete playback prints one unit test per failed check AND per satisfied cover, each with
+    `/// Check for `<kind>`: "<desc>"` and `let concrete_vals: Vec<Vec<u8>> = vec![ vec![..], ..]`.
+    Returns the value vectors of the tests that belong to failed checks (covers are skipped)."""
+    out = []
+    for blk in re.split(r"Concrete playback unit test for", text)[1:]:
+        km = re.search(r"/// Check for `([^`]*)`: \"(.*?)\"", blk)
+        kind = km.group(1) if km else ""
+        m = re.search(r"let concrete_vals: Vec<Vec<u8>> = vec!\[(.*?)\];", blk, re.S)
+        if not m:
+            continue
+        vals = []
+        for vm in re.finditer(r"vec!\[([^\]]*)\]", m.group(1)):
+            line = vm.group(1)
+            vals.append([int(x) for x in re.findall(r"\d+", line)])
+        if kind != "cover":
+            out.append(vals)
+    return out or None
 
 
 class Query:
@@ -279,9 +286,11 @@ def run_query(q, lane, logdir, playback=True):
                 pb += ["-Z", "unstable-options", "--cbmc-args", "--unwind", str(q.default_unwind or 2)]
                 if uws:
                     pb += ["--unwindset", uws]
-            rc2, to2, _ = _run(pb, _env(q.extra_rustflags), q.timeout, q.mem_gb, log + ".playback")
+            # the playback run does not slice the formula: it needs more memory and time than the deciding run
+            rc2, to2, _ = _run(pb, _env(q.extra_rustflags), max(q.timeout, 1800), max(q.mem_gb * 3, 24), log + ".playback")
             vals = parse_playback(open(log + ".playback", errors="replace").read())
-            out["witness_vals"] = vals
+            out["witness_list"] = vals
+            out["witness_vals"] = vals[0] if vals else None
         return out
     if p["undetermined"]:
         out.update(status="inconclusive", reason="%d checks UNDETERMINED" % p["undetermined"])
